@@ -387,3 +387,49 @@ def park_kind(rec, F, send, recv):
             rec.inst(R, "%s:%s parks with %s" % (opname, var, want), ok=ok, loc=h.loc, note=str(parks))
             if not ok:
                 rec.finding(R, "F4.chan-park/%s/%s" % (opname, var), "%s parks the fiber with %s on %s::%s, which ChannelQueue produces %s: %s" % (opname, parks, enum, var, "only for synchronous queues (the fiber must be Blocked, not Pending: a pending fiber is re-queued as a parent when a child completes, leaving a stale waiter entry)" if want == "block" else "for buffered queues (the fiber must stay runnable-on-wake)", "expected " + want), loc=h.loc, fn=h.path)
+
+
+def runnable_scan(rec, F):
+    """find_runnable_waiter: stale (completed) waiters are skipped, not a reason to give up"""
+    R = rec.rule("F4.waiter-scan", "waiter lists keep entries of fibers that have since completed (runnable == false): find_runnable_waiter answers None only when the list is exhausted, i.e. it discards non-runnable entries in a loop and returns the first runnable one; a live waiter queued behind a dead entry is still found")
+    fn = F.find1(r"channel_queue::find_runnable_waiter$")
+    if fn is None:
+        rec.anchor_lost("F4.waiter-scan", "channel_queue::find_runnable_waiter")
+        return
+    pops = [bi for bi, t in fn.calls() if lastseg(t["f"]) in ("pop_front", "next", "pop")]
+    ok = False
+    why = "no pop_front"
+    if pops:
+        pb = pops[0]
+        in_loop = any(sem.reaches(fn, s_, pb) for s_ in fn.succ(pb))
+        # where is the result produced?
+        none_blocks, some_blocks, other = [], [], []
+        for bi, si, s in fn.stmts():
+            if s["d"]["l"] == 0 and not s["d"]["p"]:
+                r = s["r"]
+                if r["k"] == "agg" and r.get("adt", "").endswith("Option::None"):
+                    none_blocks.append(bi)
+                elif r["k"] == "agg" and r.get("adt", "").endswith("Option::Some"):
+                    some_blocks.append(bi)
+                else:
+                    other.append(bi)
+        for bi, t in fn.calls():
+            if t["dest"]["l"] == 0 and not t["dest"]["p"]:
+                other.append(bi)
+        sw = fn.blocks[fn.blocks[pb]["t"]["to"]]
+        # the None edge of the pop
+        none_edge = None
+        swb = fn.blocks[pb]["t"]["to"]
+        for cand in (swb,):
+            t = fn.blocks[cand]["t"]
+            if t["k"] == "switch":
+                zero = [dst for v, dst in t["targets"] if v == "0"]
+                one = [dst for v, dst in t["targets"] if v == "1"]
+                none_edge = (cand, zero[0]) if zero else ((cand, t["otherwise"]) if one else None)
+        okn = bool(none_blocks) and none_edge is not None and all(fn.edge_dominates(none_edge[0], none_edge[1], b) or b == none_edge[1] for b in none_blocks)
+        oks = bool(some_blocks) and all(any(sem.desc_call_name(g[1]) == "is_runnable" and g[2] is True for g in sem.dominating_guards(F, fn, b)) for b in some_blocks)
+        ok = in_loop and okn and oks and not other
+        why = "loop=%s none-only-when-exhausted=%s some-only-when-runnable=%s other-results=%d" % (in_loop, okn, oks, len(other))
+    rec.inst(R, "find_runnable_waiter scans past dead entries", ok=ok, loc=fn.loc, note=why)
+    if not ok:
+        rec.finding(R, "F4.waiter-scan/find_runnable_waiter", "find_runnable_waiter can answer None while waiters remain in the list (%s): a completed fiber's stale entry at the head hides a live waiter behind it, which is never woken - the program reports a deadlock although a fiber could run" % why, loc=fn.loc, fn=fn.path)
